@@ -657,6 +657,7 @@ func alterations(in *injector, b base, duty core.Duty, distinct func(string)) {
 	if len(b.W.GetJustification()) > 0 {
 		k := rng.Intn(len(b.W.GetJustification()))
 		j := b.W.GetJustification()[k]
+		own := core.DutyFromProto(b.W.GetMsg().GetDuty()) // the duty of THIS recorded message
 		// justification from another duty (validly signed by its source for THAT duty — what a member
 		// that saw the other duty's traffic can replay): each component of the duty differing alone
 		for _, od := range []struct {
@@ -664,10 +665,13 @@ func alterations(in *injector, b base, duty core.Duty, distinct func(string)) {
 			d    core.Duty
 		}{
 			{"type", otherDuty},
-			{"slot", core.Duty{Slot: duty.Slot + 1, Type: duty.Type}},
-			{"slot", core.Duty{Slot: duty.Slot - 1, Type: duty.Type}},
-			{"slot", core.Duty{Slot: duty.Slot + 1<<32, Type: duty.Type}},
+			{"slot", core.Duty{Slot: own.Slot + 1, Type: own.Type}},
+			{"slot", core.Duty{Slot: own.Slot - 1, Type: own.Type}},
+			{"slot", core.Duty{Slot: own.Slot + 1<<32, Type: own.Type}},
 		} {
+			if od.d == own {
+				continue
+			}
 			w := proto.Clone(b.W).(*pbv1.QBFTConsensusMsg)
 			jj := proto.Clone(j).(*pbv1.QBFTMsg)
 			jj.Duty = core.DutyToProto(od.d)
